@@ -3,6 +3,7 @@
 use crate::framework::Check;
 
 pub mod capi_conc;
+pub mod clock;
 pub mod conc;
 pub mod crash;
 pub mod faults;
@@ -18,6 +19,7 @@ pub fn all() -> Vec<&'static dyn Check> {
     v.extend(capi_conc::checks());
     v.extend(handles::checks());
     v.extend(l2checks::checks());
+    v.extend(clock::checks());
     v.extend(faults::checks());
     v
 }
